@@ -1214,3 +1214,163 @@ theorem inferLoop_spec (parentOf : Nat → Nat → Option Nat) :
         · exact Or.inr ⟨cl', c', p', List.mem_cons_of_mem _ hm, hl, hp', he'⟩
 
 end CTM.Election
+namespace CTM.Numeric
+
+/-! ### equality case of Cauchy–Schwarz: perfect correlation = positive affine image -/
+
+theorem sum_map_affine (a b : Rat) : ∀ x : List Rat,
+    (x.map (fun v => a * v + b)).sum = a * x.sum + b * (x.length : Rat)
+  | [] => by simp
+  | v :: x => by
+    simp only [List.map_cons, List.sum_cons, List.length_cons, sum_map_affine a b x]
+    push_cast; ring
+
+theorem mean_map_affine (a b : Rat) (x : List Rat) (hx : x ≠ []) :
+    mean (x.map (fun v => a * v + b)) = a * mean x + b := by
+  have hn : (x.length : Rat) ≠ 0 := by
+    have : x.length ≠ 0 := fun h => hx (List.eq_nil_of_length_eq_zero h)
+    exact_mod_cast this
+  unfold mean
+  rw [sum_map_affine, List.length_map]
+  field_simp
+
+theorem center_map_affine (a b : Rat) (x : List Rat) (hx : x ≠ []) :
+    center (x.map (fun v => a * v + b)) = (center x).map (fun v => a * v) := by
+  unfold center
+  rw [mean_map_affine a b x hx, List.map_map, List.map_map]
+  apply List.map_congr_left
+  intro v _
+  simp only [Function.comp]
+  ring
+
+theorem dot_map_mul_right (a : Rat) : ∀ u v : List Rat,
+    dot u (v.map (fun t => a * t)) = a * dot u v
+  | [], v => by simp [dot_nil_left]
+  | _ :: _, [] => by simp [dot_nil_right]
+  | p :: u, q :: v => by
+    simp only [List.map_cons, dot_cons, dot_map_mul_right a u v]; ring
+
+theorem dot_map_mul_left (a : Rat) (u v : List Rat) :
+    dot (u.map (fun t => a * t)) v = a * dot u v := by
+  rw [dot_comm, dot_map_mul_right, dot_comm]
+
+theorem var_pos_of_ne {x : List Rat} (h : var x ≠ 0) : 0 < var x :=
+  lt_of_le_of_ne (var_nonneg x) (Ne.symm h)
+
+theorem ne_nil_of_var_ne {x : List Rat} (h : var x ≠ 0) : x ≠ [] := by
+  rintro rfl
+  exact h (by simp [var, cov, center, dot])
+
+/-- a positive affine image of a non-constant row is perfectly correlated with it -/
+theorem corrSsq_affine (x : List Rat) (a b : Rat) (ha : 0 < a) (hx : var x ≠ 0) :
+    corrSsq x (x.map (fun v => a * v + b)) = 1 := by
+  have hne := ne_nil_of_var_ne hx
+  have hpos := var_pos_of_ne hx
+  have hc : cov x (x.map (fun v => a * v + b)) = a * var x := by
+    unfold cov; rw [center_map_affine a b x hne, dot_map_mul_right]; rfl
+  have hv : var (x.map (fun v => a * v + b)) = a * a * var x := by
+    unfold var cov; rw [center_map_affine a b x hne, dot_map_mul_right, dot_map_mul_left]
+    ring
+  have hvne : var (x.map (fun v => a * v + b)) ≠ 0 := by
+    rw [hv]; positivity
+  have hcpos : 0 ≤ a * var x := by positivity
+  have hnx : normSq x = var x := by simp [normSq, hx]
+  have hny : normSq (x.map (fun v => a * v + b)) = a * a * var x := by
+    unfold normSq; rw [if_neg hvne, hv]
+  simp only [corrSsq, hnx, hny, hc, if_pos hcpos]
+  field_simp
+
+theorem dot_self_eq_zero : ∀ d : List Rat, dot d d = 0 → ∀ e ∈ d, e = 0
+  | [], _ => by simp
+  | p :: d, h => by
+    rw [dot_cons] at h
+    have h1 := dot_self_nonneg d
+    have h2 := mul_self_nonneg p
+    have hp : p * p = 0 := by linarith
+    have hd : dot d d = 0 := by linarith
+    intro e he
+    rcases List.mem_cons.1 he with rfl | he
+    · exact mul_self_eq_zero.1 hp
+    · exact dot_self_eq_zero d hd e he
+
+theorem dot_residual (a : Rat) : ∀ u v : List Rat, u.length = v.length →
+    dot (List.zipWith (fun q p => q - a * p) v u) (List.zipWith (fun q p => q - a * p) v u) =
+      dot v v - 2 * a * dot u v + a * a * dot u u
+  | [], [], _ => by simp [dot]
+  | [], _ :: _, h => by simp at h
+  | _ :: _, [], h => by simp at h
+  | p :: u, q :: v, h => by
+    simp only [List.zipWith_cons_cons, dot_cons]
+    rw [dot_residual a u v (by simpa using h)]
+    ring
+
+theorem eq_map_of_residual_zero (a : Rat) : ∀ u v : List Rat, u.length = v.length →
+    (∀ e ∈ List.zipWith (fun q p => q - a * p) v u, e = 0) → v = u.map (fun p => a * p)
+  | [], [], _, _ => rfl
+  | [], _ :: _, h, _ => by simp at h
+  | _ :: _, [], h, _ => by simp at h
+  | p :: u, q :: v, h, hz => by
+    simp only [List.zipWith_cons_cons, List.mem_cons, forall_eq_or_imp] at hz
+    rw [List.map_cons, eq_map_of_residual_zero a u v (by simpa using h) hz.2]
+    congr 1
+    linarith [hz.1]
+
+/-- perfect correlation forces a positive affine relation (equality case of
+    Cauchy–Schwarz) -/
+theorem affine_of_corrSsq_eq_one (x y : List Rat) (hlen : x.length = y.length)
+    (hx : var x ≠ 0) (h : corrSsq x y = 1) :
+    ∃ a b : Rat, 0 < a ∧ y = x.map (fun v => a * v + b) := by
+  have hvx := var_pos_of_ne hx
+  have hN : 0 < normSq x * normSq y := mul_pos (normSq_pos x) (normSq_pos y)
+  have hnx : normSq x = var x := by simp [normSq, hx]
+  have hvy : var y ≠ 0 := by
+    intro h0
+    rw [corrSsq_const_right x y h0] at h
+    exact zero_ne_one h
+  have hny : normSq y = var y := by simp [normSq, hvy]
+  unfold corrSsq at h
+  simp only at h
+  rw [div_eq_one_iff_eq hN.ne'] at h
+  have hc0 : 0 ≤ cov x y := by
+    by_contra hneg
+    rw [if_neg hneg] at h
+    nlinarith [mul_self_nonneg (cov x y)]
+  rw [if_pos hc0, hnx, hny] at h
+  have hvy' := var_pos_of_ne hvy
+  have hcpos : 0 < cov x y := by
+    rcases hc0.eq_or_lt with h0 | h0
+    · rw [← h0] at h; nlinarith
+    · exact h0
+  obtain ⟨a, ha⟩ : ∃ a, a = cov x y / var x := ⟨_, rfl⟩
+  have hapos : 0 < a := ha ▸ div_pos hcpos hvx
+  refine ⟨a, mean y - a * mean x, hapos, ?_⟩
+  have hlenc : (center x).length = (center y).length := by simp [center, hlen]
+  have hres := dot_residual a (center x) (center y) hlenc
+  have hzero : dot (center y) (center y) - 2 * a * dot (center x) (center y) +
+      a * a * dot (center x) (center x) = 0 := by
+    have e1 : dot (center x) (center y) = cov x y := rfl
+    have e2 : dot (center x) (center x) = var x := rfl
+    have e3 : dot (center y) (center y) = var y := rfl
+    rw [e1, e2, e3, ha]
+    field_simp
+    nlinarith
+  rw [hzero] at hres
+  have hall := dot_self_eq_zero _ hres
+  have hcy := eq_map_of_residual_zero a (center x) (center y) hlenc hall
+  -- un-centre
+  unfold center at hcy
+  have hy : y = (y.map (· - mean y)).map (· + mean y) := by
+    rw [List.map_map]
+    conv => lhs; rw [← List.map_id y]
+    apply List.map_congr_left
+    intro v _; simp
+  have h2 : (y.map (· - mean y)).map (· + mean y) =
+      x.map (fun v => a * v + (mean y - a * mean x)) := by
+    rw [hcy, List.map_map, List.map_map]
+    apply List.map_congr_left
+    intro v _
+    simp only [Function.comp]
+    ring
+  exact hy.trans h2
+
+end CTM.Numeric
